@@ -31,7 +31,7 @@ SPEC = '''
 def fold_step(agg, curr, new):
     # one step of the documented fold; curr is None on the empty state; new is a non-null value ('' for count)
     if agg == 'sum':
-        return new + curr if curr is not None else new
+        return curr + new if curr is not None else new       # in order of appearance (strings: concatenation)
     if agg == 'avg':
         return (curr[0] + 1, new + curr[1]) if curr is not None else (1, new)
     if agg in ('median', 'array'):
@@ -187,7 +187,7 @@ def sym_keycalc(vc):
     vc.explore(fk, thunk2)
 
 
-def mk_join(it, mode='half-outer', source_delete=True, agg='sum', target_key=True, fields=None):
+def mk_join(it, mode='half-outer', source_delete=True, agg='sum', target_key=True, fields=None, key_names=('k', 'k')):
     """call the real join(...) with KVFile replaced by map stubs; returns (func, dbs dict)"""
     from pyvc.api import real_function, Opaque, UFunc, PyDict, PyList
     m = it.module('dataflows.processors.join')
@@ -201,7 +201,7 @@ def mk_join(it, mode='half-outer', source_delete=True, agg='sum', target_key=Tru
     j = m.attrs['join']
     if fields is None:
         fields = PyDict({'x': PyDict({'name': 'v', 'aggregate': agg})})
-    func = it.call(j, ['src', PyList(['k']), 'tgt', PyList(['k']) if target_key else None],
+    func = it.call(j, ['src', PyList([key_names[0]]), 'tgt', PyList([key_names[1]]) if target_key else None],
                    dict(fields=fields, mode=mode, source_delete=source_delete))
     usage, db = dbs[0], dbs[1]
     return func, usage, db
@@ -299,10 +299,15 @@ def sym_process_target(vc):
     for mode in ('inner', 'half-outer', 'full-outer'):
         for matched in (True, False):
             def thunk(it, mode=mode, matched=matched):
-                func, usage, db = mk_join(it, mode=mode, agg='first')
+                # the key field is named differently on the two sides: rows emitted into the target resource use the TARGET's name
+                func, usage, db = mk_join(it, mode=mode, agg='first', key_names=('sk', 'tk'))
                 process_target = func.env.lookup('process_target')
+                raw_key = it.fresh('raw_source_key', Cell)
                 state = it.fresh('stored_state', Cell)
                 stored = PyDict({'x': SV(state)})
+                if mode == 'full-outer':
+                    # what the indexer's contract establishes for every entry in this mode (full-outer-stores-the-raw-key-values)
+                    stored.d['__key__'] = lib.PyList([SV(raw_key)])
 
                 def get(it_, o, a, k):
                     it_.emit(Ev('Call', target=o, method='get', args=(a[0],), kwargs={}, result=None, objs=tuple(a)))
@@ -354,6 +359,14 @@ def sym_process_target(vc):
                     if matched:
                         check(it, 'unused-source-key-emitted-once' + tag,
                               z3.And(z3.Implies(_b(isfalse), _b(len(ys) == 1)), z3.Implies(z3.Not(_b(isfalse)), _b(len(ys) == 0))))
+                        if len(ys) == 1 and isinstance(ys[0].value, PyDict):
+                            # the extra row goes into the TARGET resource: the stored raw key values under the target's key
+                            # field names (the only key fields its schema declares), the finalised aggregate, nothing else
+                            d = ys[0].value.d
+                            check(it, 'extra-row-carries-the-key-under-the-target-field-names' + tag, z3.Implies(_b(isfalse), z3.And(
+                                _b(set(d) == {'x', 'tk'}), _b(lib.values_equal(it, d.get("tk"), SV(raw_key))), _b(lib.values_equal(it, d.get("x"), SV(state))))))
+                        elif len(ys) == 1:
+                            check(it, 'extra-row-carries-the-key-under-the-target-field-names' + tag, z3.Not(_b(isfalse)))
                     cover(it, 'usage-iter-reachable' + tag)
                 it.loops['process_target#L1'] = LoopSpec(at_start=at_start, at_end=at_end)
                 it.loops['process_target#L2'] = LoopSpec(at_start=lambda it, env, e: e, at_end=u_end)
@@ -369,6 +382,8 @@ def sym_process_target(vc):
 def sym_new_resource_iterator(vc):
     import z3
     from pyvc.api import LoopSpec, check, cover, yields_of, GenObj, Stream
+    from pyvc.api import term as _t, BoolS as _B
+    lib_term = lambda v: _t(v, _B)
     fk = vc.under_contract(P + 'join.py', ['join_aux', 'new_resource_iterator'])
     for source_delete in (True, False):
         for which in ('source', 'target', 'other'):
@@ -382,6 +397,11 @@ def sym_new_resource_iterator(vc):
                     nm = r.attrs['res'].attrs['name'].t
                     it.assume({'source': nm == z3.StringVal('src'), 'target': nm == z3.StringVal('tgt'),
                                'other': z3.And(nm != z3.StringVal('src'), nm != z3.StringVal('tgt'))}[which])
+                    hi = env.lookup('has_index')
+                    hit = z3.BoolVal(hi) if isinstance(hi, bool) else lib_term(hi)
+                    it.path.info['has_index_before'] = hit
+                    # a target that comes before its source is rejected loudly, and only then
+                    it.path.info['allowed_exc'] = {'AssertionError': z3.Not(hit)} if which == 'target' else {}
                     return r
 
                 def at_end(it, env, r, events):
@@ -402,9 +422,15 @@ def sym_new_resource_iterator(vc):
                         ok = len(ys) == 1 and isinstance(ys[0].obj, GenObj) and fn_named(ys[0].obj, 'process_target') and \
                             ys[0].obj.args[0] is r
                         check(it, 'target-is-joined' + tag, ok)
+                        check(it, 'target-joined-only-after-the-source-was-indexed' + tag, it.path.info['has_index_before'])
+                    if which == 'source':
+                        hi1 = env.lookup('has_index')
+                        check(it, 'source-seen-is-remembered' + tag, hi1 if isinstance(hi1, bool) else lib_term(hi1))
                     cover(it, 'iter-reachable' + tag)
-                it.loops['new_resource_iterator#L0'] = LoopSpec(at_start=at_start, at_end=at_end)
-                it.path.info['allowed_exc'] = {'AssertionError': z3.BoolVal(True)}   # target before source: rejected
+
+                def at_entry(it, env):
+                    check(it, 'no-source-seen-before-the-first-resource' + tag, env.lookup('has_index') is False)
+                it.loops['new_resource_iterator#L0'] = LoopSpec(at_start=at_start, at_end=at_end, at_entry=at_entry)
                 it.run_generator(it.call(nri, [resources]))
             paths = vc.explore(fk, thunk, min_paths=2)
             expect_no_raise_or_same(vc, fk, paths)
@@ -472,7 +498,8 @@ def nat_join(h):
                 want.append(dict(t, x=ref_agg(agg, [r['v'] for r in groups[k]], len(groups[k]))))
             elif mode != 'inner':
                 want.append(dict(t, x=None))
-        # key cells are compared by their rendering: in full-outer mode a matched row's key fields are refreshed from the
+        # (key cells are compared by their rendering, which is what join matches on)
+        # formerly: in full-outer mode a matched row's key fields are refreshed from the
         # source's raw key values, which render identically
         def norm(rows):
             return [dict(r, k='{}'.format(r.get('k')),
@@ -518,6 +545,91 @@ def fixed(fields):
         out[k] = (name, agg)
     return out
 '''
+
+
+def nat_aggregators_fixed(h):
+    """every aggregator on fixed groups with unsorted values, odd and even sizes, nulls, a single value and an all-null group:
+    the result equals the definition of the aggregate over the matching non-null source values"""
+    import statistics, collections
+    from dataflows import Flow, join
+    groups = collections.OrderedDict([('a', [5, 0, 1, -3]), ('b', [2, 9, 4]), ('c', [None]), ('d', [7]), ('e', [3, None, 1, 3, 2])])
+    src = [{'k': k, 'v': v} for k, vs in groups.items() for v in vs]
+    h.rng.shuffle(src)
+    per_key = collections.OrderedDict()
+    for r in src:
+        per_key.setdefault(r['k'], []).append(r['v'])
+    tgt = [{'k': k, 't': i} for i, k in enumerate(['b', 'a', 'zz', 'e', 'c', 'd', 'a'])]
+
+    def ref(agg, vals):
+        nn = [v for v in vals if v is not None]
+        if agg == 'count':
+            return len(vals)
+        if agg == 'set':
+            return sorted(set(nn))
+        if agg == 'array':
+            return nn
+        if agg == 'counters':
+            return sorted(collections.Counter(nn).most_common())
+        if not nn:
+            return None
+        return {'sum': sum(nn), 'avg': sum(nn) / len(nn), 'median': statistics.median(nn), 'max': max(nn), 'min': min(nn),
+                'first': nn[0], 'last': nn[-1], 'any': nn[-1]}[agg]
+    for agg in ['sum', 'avg', 'median', 'max', 'min', 'first', 'last', 'count', 'set', 'array', 'counters', 'any']:
+        for mode in ('half-outer', 'inner'):
+            got = h.run(lambda: Flow([dict(r) for r in src], [dict(r) for r in tgt],
+                                     join('res_1', ['k'], 'res_2', ['k'], fields={'x': {'name': 'v', 'aggregate': agg}}, mode=mode)
+                                     ).results(on_error=None)[0][-1])
+            want = []
+            for t in tgt:
+                if t['k'] in per_key:
+                    want.append(dict(t, x=ref(agg, per_key[t['k']])))
+                elif mode != 'inner':
+                    want.append(dict(t, x=None))
+
+            def norm(rows):
+                out = []
+                for r in rows:
+                    x = r.get('x')
+                    if agg in ('set', 'counters') and isinstance(x, list):
+                        x = sorted([tuple(y) if isinstance(y, (list, tuple)) else y for y in x])
+                    if isinstance(x, (int, float)) and not isinstance(x, bool):
+                        x = float(x)
+                    out.append(dict(r, x=x))
+                return out
+            ok = got[0] == 'ok' and norm(got[1]) == norm(want)
+            h.check(ok, P + 'join.py::AGGREGATORS', (agg, mode, dict(per_key)), norm(want), norm(got[1]) if got[0] == 'ok' else got[:2])
+    # sum over text = concatenation in order of appearance
+    ssrc = [{'k': 'a', 's': 'x'}, {'k': 'b', 's': 'p'}, {'k': 'a', 's': 'y'}, {'k': 'a', 's': 'z'}]
+    got = h.run(lambda: Flow([dict(r) for r in ssrc], [{'k': 'a'}, {'k': 'b'}],
+                             join('res_1', ['k'], 'res_2', ['k'], fields={'cat': {'name': 's', 'aggregate': 'sum'}})).results(on_error=None)[0][-1])
+    h.check(got[0] == 'ok' and got[1] == [{'k': 'a', 'cat': 'xyz'}, {'k': 'b', 'cat': 'p'}], P + 'join.py::AGGREGATORS', 'sum of strings',
+            [{'k': 'a', 'cat': 'xyz'}, {'k': 'b', 'cat': 'p'}], got[1] if got[0] == 'ok' else got[:2])
+    # keys that render equal from different raw values: a matched target row keeps its own key cells in every mode
+    hs = [{'house': 'Lannister', 'age': 34}, {'house': 'Stark', 'age': 17}, {'house': 'Nowhere', 'age': 50}]
+    ht = [{'house': 'House of Lannister'}, {'house': 'House of Stark'}, {'house': 'House of Tyrell'}]
+    for mode in ('inner', 'half-outer', 'full-outer'):
+        got = h.run(lambda: Flow([dict(r) for r in hs], [dict(r) for r in ht],
+                                 join('res_1', 'House of {house}', 'res_2', '{house}', fields={'max_age': {'name': 'age', 'aggregate': 'max'}},
+                                      mode=mode)).results(on_error=None)[0][-1])
+        want = [{'house': 'House of Lannister', 'max_age': 34}, {'house': 'House of Stark', 'max_age': 17}]
+        if mode != 'inner':
+            want.append({'house': 'House of Tyrell', 'max_age': None})
+        h.check(got[0] == 'ok' and got[1][:len(want)] == want and (len(got[1]) == len(want) + (1 if mode == 'full-outer' else 0)),
+                P + 'join.py::join_aux.process_target', ('format keys', mode), want, got[1] if got[0] == 'ok' else got[:2])
+
+
+    # two-field format keys whose field names sort differently on the two sides, and a repeated field: the row emitted for an
+    # unmatched source key carries the source's key values under the corresponding target fields, position by position
+    cs = [{'city': 'Paris', 'country': 'FR', 'pop': 2}, {'city': 'Lyon', 'country': 'FR', 'pop': 1}, {'city': 'Bonn', 'country': 'DE', 'pop': 3}]
+    ct = [{'name': 'Paris', 'cc': 'FR'}, {'name': 'Rome', 'cc': 'IT'}]
+    for skey, tkey, extra in (('{city} ({country})', '{name} ({cc})', [{'name': 'Lyon', 'cc': 'FR', 'pop': 1}, {'name': 'Bonn', 'cc': 'DE', 'pop': 3}]),
+                              ('{country}/{city}', '{cc}/{name}', [{'name': 'Lyon', 'cc': 'FR', 'pop': 1}, {'name': 'Bonn', 'cc': 'DE', 'pop': 3}])):
+        got = h.run(lambda: Flow([dict(r) for r in cs], [dict(r) for r in ct],
+                                 join('res_1', skey, 'res_2', tkey, fields={'pop': {}}, mode='full-outer')).results(on_error=None)[0][-1])
+        want = [{'name': 'Paris', 'cc': 'FR', 'pop': 2}, {'name': 'Rome', 'cc': 'IT', 'pop': None}]
+        srt = lambda rows: sorted(rows, key=lambda r: r.get('name') or '')
+        h.check(got[0] == 'ok' and got[1][:2] == want and srt(got[1][2:]) == srt(extra), P + 'join.py::KeyCalc.__init__',
+                ('two-field format keys, full-outer', skey, tkey), want + extra, got[1] if got[0] == 'ok' else got[:2])
 
 
 def sym_field_helpers(vc):
@@ -647,7 +759,7 @@ def sym_field_helpers(vc):
 
 
 ITEMS = [
-    Item('aggregators', sym_aggregators, [('differential', nat_join)], P + 'join.py::AGGREGATORS'),
+    Item('aggregators', sym_aggregators, [('differential', nat_join), ('fixed-groups', nat_aggregators_fixed)], P + 'join.py::AGGREGATORS'),
     Item('field-helpers', sym_field_helpers, [], P + 'join.py::fix_fields'),
     Item('KeyCalc', sym_keycalc, [], P + 'join.py::KeyCalc.__call__'),
     Item('indexer', sym_indexer, [], P + 'join.py::join_aux.indexer'),
